@@ -1,5 +1,5 @@
 //@file src/lib.rs
-//@harness c03_log_fanout unwind=5 strength=bounded bound="3 attachments (any indices, repeats allowed) over 3 appenders each failing or not; all thresholds x levels" timeout=900 body=body_fanout
+//@harness c03_log_fanout unwind=5 strength=bounded bound="3 attachments (any indices, repeats allowed) over 3 appenders each failing or not; all thresholds x levels" timeout=1800 body=body_fanout
 //@harness c03_append_chain_twin unwind=5 strength=bounded bound="filter chains of length <= 3 over {Accept, Neutral, Reject}; appender failing or not" timeout=600 body=body_chain
 // ConfiguredLogger::log: threshold then fan-out with error isolation; Appender::append: chain interpreter (twin of the Verus unit).
 #[cfg(any(kani, verif_replay))]
